@@ -20,21 +20,21 @@ let rec take_items n f toks acc =
   if n = 0 then (List.rev acc, toks)
   else let (x, r) = f toks in take_items (n - 1) f r (x :: acc)
 
-let parse_inner = function
-  | "r" :: refs :: t -> (IRefs (strs_of_field refs), t)
-  | "d" :: l :: b :: refs :: t -> (IDef (str_of_field l, n_of_int (int_of_string b), strs_of_field refs), t)
-  | _ -> failwith "inner"
+(* document grammar (recursive):  R refs | D label body refs | B n item*n *)
+let rec parse_item (toks : string list) : blk * string list =
+  match toks with
+  | "R" :: refs :: t -> (BRefs (strs_of_field refs), t)
+  | "D" :: l :: b :: refs :: t -> (BDef (str_of_field l, n_of_int (int_of_string b), strs_of_field refs), t)
+  | "B" :: n :: t ->
+      let (its, t') = take_items (int_of_string n) parse_item t [] in
+      (BBox its, t')
+  | x :: _ -> failwith ("doc token " ^ x)
+  | [] -> failwith "doc token: end"
 
 let rec parse_doc toks acc =
   match toks with
   | [] -> List.rev acc
-  | "R" :: refs :: t -> parse_doc t (TRefs (strs_of_field refs) :: acc)
-  | "D" :: l :: b :: refs :: t ->
-      parse_doc t (TDef (str_of_field l, n_of_int (int_of_string b), strs_of_field refs) :: acc)
-  | "B" :: n :: t ->
-      let (its, t') = take_items (int_of_string n) parse_inner t [] in
-      parse_doc t' (TBox its :: acc)
-  | x :: _ -> failwith ("doc token " ^ x)
+  | _ -> let (b, t) = parse_item toks in parse_doc t (b :: acc)
 
 let show_ostr = field_of_ostr
 let show_warn = function
@@ -42,37 +42,64 @@ let show_warn = function
   | WUnref (l, a) -> "U!" ^ field_of_str l ^ "!" ^ (if a then "a" else "m")
   | WTooMany -> "X"
 
-let show_lin = function
-  | LIOther -> "o" | LIMsg -> "m" | LIFoot l -> "f=" ^ field_of_str l
-
-let show_ltop = function
+let rec show_ltop = function
   | LOther -> "O" | LMsg -> "M" | LTrans -> "T"
   | LFoot l -> "F!" ^ field_of_str l
-  | LBox its -> "B!" ^ (match its with [] -> "." | _ -> String.concat "/" (List.map show_lin its))
+  | LBox its -> "[ " ^ String.concat " " (List.map show_ltop its) ^ (match its with [] -> "]" | _ -> " ]")
 
 let join sep f l = match l with [] -> "." | _ -> String.concat sep (List.map f l)
 
+let show_fout (f : fout) =
+  String.concat "!" [field_of_str f.fo_fn.f_label; field_of_str f.fo_display;
+                     join "+" (fun i -> string_of_int (int_of_nat i)) f.fo_backrefs;
+                     string_of_int (int_of_n f.fo_fn.f_body)]
+
+let show_rout (o : rout) =
+  String.concat "!" [string_of_int (int_of_nat o.ro_idx); field_of_str o.ro_label;
+                     show_ostr o.ro_refid; show_ostr o.ro_text]
+
+let label_table n rest =
+  let (table, rest') = take_items (int_of_string n) (function
+    | l :: d :: i :: t -> ((str_of_field l, (b_of d, if i = "~" then None else Some (n_of_int (int_of_string i)))), t)
+    | _ -> failwith "L") rest [] in
+  let isdigit s = (try fst (List.assoc s table) with Not_found -> ascii_digits s) in
+  let int_of s = (try snd (List.assoc s table) with Not_found ->
+                    if ascii_digits s then Some (dval s) else None) in
+  (isdigit, int_of, rest')
+
 let handle (fs : string list) : string =
   match fs with
-  | "run" :: sort :: trans :: "L" :: n :: rest ->
-      let (table, rest') = take_items (int_of_string n) (function
-        | l :: d :: i :: t -> ((str_of_field l, (b_of d, if i = "~" then None else Some (n_of_int (int_of_string i)))), t)
-        | _ -> failwith "L") rest [] in
-      let isdigit s = (try fst (List.assoc s table) with Not_found -> ascii_digits s) in
-      let int_of s = (try snd (List.assoc s table) with Not_found ->
-                        if ascii_digits s then Some (dval s) else None) in
+  | "run" :: legacy :: sort :: trans :: "L" :: n :: rest ->
+      let (isdigit, int_of, rest') = label_table n rest in
       let d = parse_doc rest' [] in
-      (match run isdigit int_of docutils_footnotes (b_of sort) (b_of trans) d with
+      (match run_with isdigit int_of docutils_footnotes (b_of legacy) pipeline (b_of sort) (b_of trans) d with
        | Raise e -> "!" ^ exn_name e
        | Ok r ->
            String.concat " # " [
-             join " " (fun o -> String.concat "!" [string_of_int (int_of_nat o.ro_idx); field_of_str o.ro_label;
-                                                    show_ostr o.ro_refid; show_ostr o.ro_text]) r.x_refs;
-             join " " (fun f -> String.concat "!" [field_of_str f.fo_fn.f_label; field_of_str f.fo_display;
-                                                    join "+" (fun i -> string_of_int (int_of_nat i)) f.fo_backrefs;
-                                                    string_of_int (int_of_n f.fo_fn.f_body)]) r.x_foots;
-             join " " show_ltop r.x_layout;
-             join " " show_warn r.x_warn ])
+             join " " show_rout r.x_refs; join " " show_fout r.x_foots;
+             join " " show_ltop r.x_layout; join " " show_warn r.x_warn ])
+  (* docutils' Footnotes transform alone on a hand-built registry:
+       footnotes  names  autofootnotes  footnotes  R n (label auto)*n
+     names = extra registered names; every footnote label is registered too *)
+  | "footnotes" :: names :: autos :: manuals :: "R" :: n :: rest ->
+      let (refs, _) = take_items (int_of_string n) (function
+        | l :: a :: t -> ((str_of_field l, b_of a), t) | _ -> failwith "R") rest [] in
+      let mkfn auto i l = { f_label = l; f_auto = auto; f_body = n_of_int i } in
+      let af = List.mapi (mkfn true) (strs_of_field autos) in
+      let mf = List.mapi (mkfn false) (strs_of_field manuals) in
+      let rfs = List.mapi (fun i (l, a) -> { r_idx = nat_of_int i; r_label = l; r_auto = a }) refs in
+      let frefs = List.fold_left (fun d r -> dappend d r.r_label r) [] rfs in
+      let g = { g_nameids = strs_of_field names @ strs_of_field autos @ strs_of_field manuals;
+                g_autofootnotes = af; g_footnotes = mf;
+                g_autofootnote_refs = List.filter (fun r -> r.r_auto) rfs;
+                g_footnote_refs = frefs; g_allrefs = rfs; g_nrefs = nat_of_int (List.length rfs); g_warn = [] } in
+      (match docutils_footnotes { s_regs = g; s_manual = []; s_auto = []; s_layout = []; s_warn = [] } with
+       | Raise e -> "!" ^ exn_name e
+       | Ok st ->
+           let foots = st.s_manual @ st.s_auto in
+           String.concat " # " [
+             join " " show_rout (List.map (ref_out foots) rfs); join " " show_fout foots;
+             join " " show_warn st.s_warn ])
   | _ -> "!badcmd"
 
 let () = main handle
